@@ -8,9 +8,19 @@ from vlib import coq_z, coq_bool, coq_list
 PID = "C11"
 F_OR = "C11-or-unconstrained"
 F_ACC = "C11-key-accumulation"
+F_DROP = "C11-stale-shardkey-after-dropped-row"
+F_SKI = "C11-stale-shardkey-across-groups"
+NV = 32
+FULL = (1 << NV) - 1
 
-V_NAMES = {i: "or=%s,and=%s,reset=%s" % (("repaired" if i & 4 else "current"), ("repaired" if i & 2 else "current"),
-                                         ("repaired" if i & 1 else "current")) for i in range(8)}
+
+def _rc(b):
+    return "repaired" if b else "current"
+
+
+V_NAMES = {i: "batchkey=%s,groupkey=%s,or=%s,and=%s,reset=%s" % (_rc(i & 16), _rc(i & 8), _rc(i & 4), _rc(i & 2), _rc(i & 1))
+           for i in range(NV)}
+AND_CURRENT = sum(1 << i for i in range(NV) if not i & 2)
 
 
 # ------------------------------------------------------------------------------------------ rendering cases as Coq terms
@@ -43,54 +53,60 @@ def cexpr(n):
 def cgroup(g):
     shards = coq_list(["{| s_id := %d%%N; s_min := %s; s_max := %s |}" % (s["id"], cstr(s["min"]), cstr(s["max"]))
                        for s in (g["shards"] or [])])
-    return ("{| g_id := %d%%N; g_start := %s; g_end := %s; g_deleted := %s; g_trunc := %s; g_shards := %s; "
-            "g_alive := %s; g_mstidx := %s |}") % (
+    return ("{| g_id := %d%%N; g_start := %s; g_end := %s; g_deleted := %s; g_trunc := %s; g_shards := %s; g_alive := %s |}") % (
         g["id"], coq_z(g["start"]), coq_z(g["end"]), coq_bool(g["deleted"]),
-        "None" if g["trunc"] is None else "(Some %s)" % coq_z(g["trunc"]), shards, cnat_list(g["alive"] or []),
-        "None" if g["mstidx"] is None else "(Some %s)" % cnat_list(g["mstidx"]))
+        "None" if g["trunc"] is None else "(Some %s)" % coq_z(g["trunc"]), shards, cnat_list(g["alive"] or []))
 
 
 def ccase(c):
     cf = c["cfg"]
     groups = c["groups"] or []
-    cfg = ("{| c_mst := %s; c_tagkeys := %s; c_sk := %s; c_typ := %s; c_dur := %s; c_groups := %s |}" % (
-        cstr(cf["mstver"]), coq_list([cstr(k) for k in cf["tagkeys"]]), coq_list([cstr(k) for k in (cf["sk"] or [])]),
-        "Hash" if cf["typ"] == "hash" else "Range", coq_z(cf["dur"]), coq_list([cgroup(g) for g in groups])))
+    msts = []
+    for m in cf["msts"]:
+        idx = "None" if m["mstidx"] is None else "(Some %s)" % coq_list(
+            ["(%d%%N, %s)" % (x["gid"], cnat_list(x["idx"] or [])) for x in m["mstidx"]])
+        cfg = ("{| c_mst := %s; c_tagkeys := %s; c_sk := []; c_typ := %s; c_dur := %s; c_groups := gs; c_mstidx := %s |}" % (
+            cstr(m["mstver"]), coq_list([cstr(k) for k in m["tagkeys"]]), "Hash" if cf["typ"] == "hash" else "Range",
+            coq_z(cf["dur"]), idx))
+        vers = coq_list(["(%d%%N, %s)" % (v["from"], coq_list([cstr(k) for k in (v["sk"] or [])])) for v in m["vers"]])
+        msts.append("{| m_cfg := %s; m_vers := %s |}" % (cfg, vers))
     pts = []
     for p in c["points"]:
         routed = "None" if p["err"] else "(Some (%d%%N, %d%%N))" % (p["gid"], p["sid"])
         hsh = "None" if not p["hash"] else "(Some (%s, %s%%N))" % (cstr(p["hkey"]), p["hash"])
-        pts.append("{| cp_tags := %s; cp_time := %s; cp_leaf := %s; cp_sat := %s; cp_fresh := %s; cp_routed := %s; cp_hash := %s |}" % (
-            ctags(p["tags"] or []), coq_z(p["time"]), coq_list([coq_bool(b) for b in (p["leaf"] or [])]), coq_bool(p["sat"]),
-            coq_bool(p["fresh"]), routed, hsh))
+        pts.append("{| cp_m := %d%%nat; cp_newbatch := %s; cp_conflict := %s; cp_tags := %s; cp_time := %s; cp_leaf := %s; "
+                   "cp_sat := %s; cp_routed := %s; cp_hash := %s |}" % (
+                       p["m"], coq_bool(p["newbatch"]), coq_bool(p["conflict"]), ctags(p["tags"] or []), coq_z(p["time"]),
+                       coq_list([coq_bool(b) for b in (p["leaf"] or [])]), coq_bool(p["sat"]), routed, hsh))
     ct = "None" if c["condtags"] is None else "(Some %s)" % coq_list([ctags(ts) for ts in c["condtags"]])
-    return ("{| cc_cfg := %s; cc_born := %s; cc_cond := %s; cc_points := %s; cc_condtags := %s; cc_tmin := %s; "
-            "cc_tmax := %s; cc_qgroups := %s; cc_targets := %s |}") % (
-        cfg, coq_list([coq_z(g["born"]) for g in groups]), "(Some %s)" % cexpr(c["cond"]) if c["hascond"] else "None",
+    return ("(let gs := %s in {| cc_msts := %s; cc_qm := %d%%nat; cc_born := %s; cc_cond := %s; cc_points := %s; "
+            "cc_condtags := %s; cc_tmin := %s; cc_tmax := %s; cc_qgroups := %s; cc_targets := %s |})") % (
+        coq_list([cgroup(g) for g in groups]), coq_list(msts), c["qm"], coq_list([coq_z(g["born"]) for g in groups]),
+        "(Some %s)" % cexpr(c["cond"]) if c["hascond"] else "None",
         coq_list(pts), ct, coq_z(c["tmin"]), coq_z(c["tmax"]), coq_list(["%d%%N" % x for x in c["qgroups"]]),
         coq_list(["(%d%%N, %s)" % (t["gid"], coq_list(["%d%%N" % s for s in t["sids"]])) for t in c["targets"]]))
 
 
 # ------------------------------------------------------------------------------------------ finding signatures (code)
-def is_tag_eq(n, cfg):
-    return n["op"] == "eqstr" and n["k"].lower() != "time" and n["k"] in cfg["tagkeys"]
+def is_tag_eq(n, tagkeys):
+    return n["op"] == "eqstr" and n["k"].lower() != "time" and n["k"] in tagkeys
 
 
-def cur_nil(n, cfg):
+def cur_nil(n, tagkeys):
     """getConditionTags of today's code returns nil on this subtree"""
     if n["op"] in ("and", "or"):
-        return cur_nil(n["l"], cfg) and cur_nil(n["r"], cfg)
-    return not is_tag_eq(n, cfg)
+        return cur_nil(n["l"], tagkeys) and cur_nil(n["r"], tagkeys)
+    return not is_tag_eq(n, tagkeys)
 
 
-def or_with_one_unconstrained_operand(n, cfg):
+def or_with_one_unconstrained_operand(n, tagkeys):
     """signature of C11-or-unconstrained: an OR that getConditionTags reaches (not inside parentheses) exactly one of whose
     operands yields no tag constraint"""
     if n["op"] == "or":
-        if cur_nil(n["l"], cfg) != cur_nil(n["r"], cfg):
+        if cur_nil(n["l"], tagkeys) != cur_nil(n["r"], tagkeys):
             return True
     if n["op"] in ("and", "or"):
-        return or_with_one_unconstrained_operand(n["l"], cfg) or or_with_one_unconstrained_operand(n["r"], cfg)
+        return or_with_one_unconstrained_operand(n["l"], tagkeys) or or_with_one_unconstrained_operand(n["r"], tagkeys)
     return False
 
 
@@ -109,14 +125,69 @@ def point_matches(p, ts):
     return all(tags.get(k, "") == v for k, v in ts)
 
 
-def classify(c, p):
+def key_at(m, gid):
+    """MeasurementInfo.GetShardKey(group id): the last version whose threshold is <= the id"""
+    for v in reversed(m["vers"]):
+        if v["from"] <= gid:
+            return v["sk"] or []
+    return None
+
+
+def has_adj_dup(tags):
+    return any(tags[i][0] == tags[i + 1][0] for i in range(len(tags) - 1))
+
+
+def stale_after_dropped_row(c, pi):
+    """signature of C11-stale-shardkey-after-dropped-row, by replaying the batch bookkeeping of today's code up to the
+    failing row: the remembered shard-key definition belongs to ANOTHER measurement with a different key, although the
+    previous row resolved this row's measurement (it was dropped by the schema check before it was routed) and the shard
+    group did not change"""
+    pts = c["points"]
+    msts = c["cfg"]["msts"]
+    start = pi
+    while start > 0 and not pts[start]["newbatch"]:
+        start -= 1
+    pre_mst = None     # measurement resolved for the previous row (writeHelper.preMst)
+    key_owner = None   # measurement whose shard key sits in ctx.shardKeyInfo
+    cached_gid = None  # writeHelper.preSg
+    for i in range(start, pi + 1):
+        p = pts[i]
+        if p["time"] < 0:
+            continue  # outside the retention window: rejected before the measurement is looked at
+        same_mst = pre_mst == p["m"]
+        pre_mst = p["m"]
+        if p["conflict"] or has_adj_dup(p["tags"] or []):
+            continue  # dropped between createMeasurement and updateShardGroupAndShardKey
+        gid = p["gid"] if not p["err"] else None
+        same_sg = gid is not None and gid == cached_gid
+        if i == pi:
+            return (same_mst and same_sg and key_owner is not None and key_owner != p["m"]
+                    and key_at(msts[key_owner], gid) != key_at(msts[p["m"]], gid))
+        if gid is None:
+            # a row rejected inside the routing step (missing shard-key tag): its group is not observable; be
+            # conservative and treat the bookkeeping as refreshed
+            key_owner, cached_gid = p["m"], None
+            continue
+        if not (same_mst and same_sg):
+            key_owner = p["m"]
+        cached_gid = gid
+    return False
+
+
+def classify(c, pi):
     """returns (finding id | 'latent-and' | None) for a point whose shard the read path failed to consult"""
-    cfg = c["cfg"]
-    if not c["hascond"] or not cfg["sk"] or c["condtags"] is None:
+    p = c["points"][pi]
+    m = c["cfg"]["msts"][c["qm"]]
+    if stale_after_dropped_row(c, pi):
+        return F_DROP
+    first_key = key_at(m, c["qgroups"][0]) if c["qgroups"] else None
+    if len(m["vers"]) >= 2 and key_at(m, p["gid"]) != first_key:
+        return F_SKI
+    if not c["hascond"] or not first_key or c["condtags"] is None:
         return None
     ct = c["condtags"]
     matches = [i for i, ts in enumerate(ct) if point_matches(p, ts)]
-    if not matches and or_with_one_unconstrained_operand(c["cond"], cfg):
+    if not matches and or_with_one_unconstrained_operand(c["cond"], m["tagkeys"]):
         return F_OR
     if len(ct) >= 2 and matches and matches[0] >= 1:
         return F_ACC
@@ -127,21 +198,25 @@ def classify(c, p):
 
 # ------------------------------------------------------------------------------------------
 def run_harness(ck, binp, args, expect=None):
+    """runs the harness; `expect` = number of generated cases (the harness announces how many hand-written ones precede)"""
     rc, out = ck.run([binp] + args, timeout=1500)
     cases = []
+    nwit = 0
     for l in out.splitlines():
-        if l.startswith('{"n"'):
+        if l.startswith('{"witnesses"'):
+            nwit = json.loads(l)["witnesses"]
+        elif l.startswith('{"n"'):
             try:
                 cases.append(json.loads(l))
             except ValueError:
                 ck.broken.append("harness c11 printed an unparsable case line")
-    if rc != 0 or (expect is not None and len(cases) != expect):
+    if rc != 0 or (expect is not None and (nwit < 1 or len(cases) != expect + nwit)):
         ck.broken.append("harness c11 failed rc=%d cases=%d: %s" % (rc, len(cases), out[-600:]))
         return None
     return cases
 
 
-def eval_model(ck, cases, shard=60):
+def eval_model(ck, cases, shard=40):
     files = []
     for i in range(0, len(cases), shard):
         chunk = cases[i:i + shard]
@@ -164,7 +239,7 @@ def eval_model(ck, cases, shard=60):
     return out, okall
 
 
-CODE_TXT = {1: "row evaluation (eval_cond)", 2: "write routing (route)", 3: "hashed shard-key bytes / HashID",
+CODE_TXT = {1: "row evaluation (eval_cond)", 3: "HashID (XXH64) of the hashed shard-key bytes",
             4: "span of the created shard group (span_of)", 5: "groups selected by the time range (query_groups)"}
 
 
@@ -193,7 +268,7 @@ def main(ck):
             return
     else:
         n = 400 if ck.tier == "quick" else 6000
-        cases = run_harness(ck, binp, [str(n)], expect=n + NWITNESS)
+        cases = run_harness(ck, binp, [str(n)], expect=n)
         if cases is None:
             return
         # minimised past failures first
@@ -208,28 +283,38 @@ def main(ck):
     mism, evok = eval_model(ck, cases) if ok else ({}, False)
 
     # ---- variant detection and correspondence
-    mask = 255
+    mask = FULL
     first_zero = None
     for i in range(len(cases)):
-        codes, m = mism.get(i, ([], 255))
+        codes, m = mism.get(i, ([], FULL))
         if mask & m == 0 and first_zero is None and mask != 0:
             first_zero = i
         mask &= m
     code_fail = [(i, mism[i][0]) for i in sorted(mism) if mism[i][0]]
-    variants = [V_NAMES[i] for i in range(8) if mask >> i & 1]
+    variants = [V_NAMES[i] for i in range(NV) if mask >> i & 1]
     ck.cov["model_variants_matching_impl"] = variants
     ck.notes.append("implementation matches model variants: %s" % (variants or "none"))
 
     # ---- direct oracle on the implementation
     nontriv = set()
-    hist = {"label": {}, "typ": {}, "nsk": {}, "ptnum": {}, "dur": {}, "point_err": {}, "split": 0, "nocond": 0}
+    hist = {"label": {}, "typ": {}, "nsk": {}, "ptnum": {}, "dur": {}, "measurements": {}, "batches": {},
+            "measurement_switches_inside_batches": {}, "alter_shardkey": {}, "point_err": {}, "split": 0, "nocond": 0}
     sat_routed = 0
     known_hits = {}
     latent = 0
     viol = 0
     for i, c in enumerate(cases):
         cf = c["cfg"]
-        for k, v in (("label", c["label"]), ("typ", cf["typ"]), ("nsk", len(cf["sk"] or [])), ("ptnum", cf["ptnum"]), ("dur", cf["dur"])):
+        nb = sum(1 for p in c["points"] if p["newbatch"])
+        mixed = 0
+        prev = None
+        for p in c["points"]:
+            if not p["newbatch"] and prev is not None and prev != p["m"]:
+                mixed += 1
+            prev = p["m"]
+        for k, v in (("label", c["label"]), ("typ", cf["typ"]), ("nsk", len(cf["msts"][c["qm"]]["sk"] or [])), ("ptnum", cf["ptnum"]),
+                     ("dur", cf["dur"]), ("measurements", len(cf["msts"])), ("batches", nb),
+                     ("measurement_switches_inside_batches", min(mixed, 5)), ("alter_shardkey", c["alter"] is not None)):
             hist[k][str(v)] = hist[k].get(str(v), 0) + 1
         hist["split"] += 1 if c["split"] else 0
         hist["nocond"] += 0 if c["hascond"] else 1
@@ -237,22 +322,26 @@ def main(ck):
         ns = 0
         for p in c["points"]:
             hist["point_err"][p["err"].split(":")[0] or "routed"] = hist["point_err"].get(p["err"].split(":")[0] or "routed", 0) + 1
-            if not p["err"] and p["sat"] and p["intr"]:
+            if not p["err"] and p["sat"] and p["intr"] and p["m"] == c["qm"]:
                 ns += 1
         sat_routed += ns
         if pruned and ns > 0:
-            nontriv.add(json.dumps([cf, c["condtext"], c["label"], [(p["tags"], p["time"]) for p in c["points"]]], sort_keys=True))
+            nontriv.add(json.dumps([cf, c["condtext"], c["label"], c["qm"], [(p["m"], p["tags"], p["time"]) for p in c["points"]]], sort_keys=True))
         for msg in c["oracle"]:
             if msg.startswith("prune: point "):
                 pi = int(msg.split()[2])
-                kind = classify(c, c["points"][pi])
-                if kind in (F_OR, F_ACC) and ck.match_finding(kind):
+                kind = classify(c, pi)
+                if kind in (F_OR, F_ACC, F_DROP, F_SKI) and ck.match_finding(kind):
                     known_hits[kind] = known_hits.get(kind, 0) + 1
                     if known_hits[kind] == 1:
-                        ck.known_finding(kind, "TargetShards skips the shard holding a row that satisfies the query: %s | cond: %s | shard key %s, %s shards" % (
-                            msg[7:], c["condtext"], cf["sk"], cf["ptnum"]))
+                        what = {F_OR: "TargetShards skips the shard holding a row that satisfies the query",
+                                F_ACC: "TargetShards skips the shard holding a row that satisfies the query",
+                                F_DROP: "a row is hashed by the shard key of ANOTHER measurement of its write batch, so the query on its own key skips its shard",
+                                F_SKI: "mapMstShards prunes every group with the shard key of the first group although the key was altered in between"}[kind]
+                        ck.known_finding(kind, "%s: %s | cond: %s | measurements %s, %s shards" % (
+                            what, msg[7:], c["condtext"], [(m["mst"], [v["sk"] for v in m["vers"]]) for m in cf["msts"]], cf["ptnum"]))
                     continue
-                if kind == "latent-and" and mask & 0b00110011:  # the tree's AND is today's (variants with v_and = current match)
+                if kind == "latent-and" and mask & AND_CURRENT:  # the tree's AND is today's (variants with v_and = current match)
                     # AND with alternatives on a paren-free tree: outside the parser's image, not reachable by a query
                     latent += 1
                     continue
@@ -274,22 +363,21 @@ def main(ck):
             ck.nofail_detail = {"kind": "correspondence", "case_index": i, "codes": codes, "case": cases[i]}
         elif mask == 0:
             i = first_zero if first_zero is not None else 0
-            ck.broken.append("correspondence C11: no variant of cond_tags/target reproduces getConditionTags/TargetShards "
-                             "(first contradiction at case %d)" % i)
+            ck.broken.append("correspondence C11: no variant of batch routing / cond_tags / target reproduces the write path's "
+                             "batch loop, getConditionTags and TargetShards (first contradiction at case %d)" % i)
             ck.nofail_detail = {"kind": "correspondence", "case_index": i, "case": cases[i],
-                                "explanation": "model variants agreeing with this case: %s" % [V_NAMES[k] for k in range(8) if mism.get(i, ([], 255))[1] >> k & 1]}
+                                "explanation": "model variants agreeing with this case: %s" % [V_NAMES[k] for k in range(NV) if mism.get(i, ([], FULL))[1] >> k & 1]}
 
     ck.cov["evaluations"] = len(cases)
     ck.cov["distinct_nontrivial"] = len(nontriv)
     ck.cov["traces_validated_against_impl"] = len(cases) - len(code_fail) - (0 if mask else 1) if ok and evok else 0
-    ck.cov["rule"] = ("case = generated catalogue (partition count, group duration, hash/range, 0-3 shard-key tags, offline partition, "
-                      "per-measurement shard list, deleted/truncated group) + condition tree + 5-10 points on/around group "
-                      "boundaries; non-trivial = the read path pruned at least one alive shard AND at least one routed point "
-                      "satisfies the query; distinct = different (cfg, condition, points)")
+    ck.cov["rule"] = ("case = generated catalogue (1-3 measurements with their own shard keys (0-3 tags) and shard lists, partition count, "
+                      "group duration, hash/range, offline partition, deleted/truncated group, optional ALTER SHARDKEY between two "
+                      "batches) + write batches interleaving the measurements (5-14 rows on/around group boundaries, rows dropped by "
+                      "the schema check) routed by the real per-batch loop + condition tree on one measurement; non-trivial = the "
+                      "read path pruned at least one alive shard AND at least one routed row of the queried measurement satisfies "
+                      "the query; distinct = different (cfg, condition, queried measurement, rows)")
     ck.cov["points_routed_and_satisfying"] = sat_routed
     ck.cov["input_histogram"] = hist
     ck.cov["samples"] = [{"cfg": c["cfg"], "cond": c["condtext"], "label": c["label"], "targets": c["targets"],
-                          "points": [(p["tags"], p["time"], p["sid"], p["sat"]) for p in c["points"][:3]]} for c in cases[:3]]
-
-
-NWITNESS = 7
+                          "points": [(p["m"], p["tags"], p["time"], p["sid"], p["sat"]) for p in c["points"][:3]]} for c in cases[:3]]
